@@ -9,6 +9,7 @@ CONSTANTS
   NS = {2, 3, 4}
   Lims = {0, 1, 2}
   NodeCounts = {1}
+  LockKeys = {"owner"}
   FixedKinds = {}
   WithRelease = TRUE
   Emit = FALSE
